@@ -15,7 +15,7 @@ From PV Require Import Base.
 (* ------------------------------------------------------------------------------------------ *)
 Inductive kind := KTable | KSchema | KDatabase | KAliased.
 Inductive sattr := SName | SParent | SKind.                   (* Schema: _name, _parent, class  *)
-Inductive tattr := TName | TSchema | TAlias | TFor | TPortion. (* Table: _table_name, _schema, alias, _for, _for_portion *)
+Inductive tattr := TName | TSchema | TAlias | TFor | TPortion | TQcls. (* Table: _table_name, _schema, alias, _for, _for_portion, _query_cls *)
 Inductive aattr := QName | QBody.                              (* AliasedQuery: name, query      *)
 
 Definition kind_eqb (a b : kind) : bool :=
@@ -23,7 +23,7 @@ Definition kind_eqb (a b : kind) : bool :=
 Definition sa_eqb (a b : sattr) : bool :=
   match a, b with SName, SName | SParent, SParent | SKind, SKind => true | _, _ => false end.
 Definition ta_eqb (a b : tattr) : bool :=
-  match a, b with TName, TName | TSchema, TSchema | TAlias, TAlias | TFor, TFor | TPortion, TPortion => true | _, _ => false end.
+  match a, b with TName, TName | TSchema, TSchema | TAlias, TAlias | TFor, TFor | TPortion, TPortion | TQcls, TQcls => true | _, _ => false end.
 Definition aa_eqb (a b : aattr) : bool :=
   match a, b with QName, QName | QBody, QBody => true | _, _ => false end.
 
@@ -55,7 +55,8 @@ Fixpoint chain (s : schema) : list string :=
 (* Table: the temporal clauses are opaque texts (the rendering of the criterion given to
    for_() / for_portion()); a table never carries both (the builders raise). *)
 Record table := { tname : string; tschema : option schema; talias : option string;
-                  tfor : option string; tportion : option string }.
+                  tfor : option string; tportion : option string;
+                  tqcls : string   (* the name of the Query class the table is bound to (query_cls=, Query.Table) *) }.
 
 (* AliasedQuery(name, query=None): the body is an opaque text *)
 Record aliased := { aname : string; abody : option string }.
@@ -135,6 +136,7 @@ Definition tattr_eqb (sa : list sattr) (x : tattr) (a b : table) : bool :=
   | TAlias => ostr_eqb (talias a) (talias b)
   | TFor => ostr_eqb (tfor a) (tfor b)
   | TPortion => ostr_eqb (tportion a) (tportion b)
+  | TQcls => String.eqb (tqcls a) (tqcls b)
   end.
 
 Definition teq_on (sa : list sattr) (ta : list tattr) (a b : table) : bool :=
@@ -188,6 +190,7 @@ Definition tval (sa : list sattr) (x : tattr) (t : table) : val :=
   | TAlias => VOpt (talias t)
   | TFor => VOpt (tfor t)
   | TPortion => VOpt (tportion t)
+  | TQcls => VStr (tqcls t)
   end.
 Definition aval (x : aattr) (a : aliased) : val :=
   match x with QName => VStr (aname a) | QBody => VOpt (abody a) end.
@@ -343,21 +346,21 @@ Definition apply_op (r : res table) (o : top) : res table :=
   | Ok t =>
     match o with
     | OpObs => Ok t
-    | OpAs a => Ok {| tname := tname t; tschema := tschema t; talias := Some a; tfor := tfor t; tportion := tportion t |}
+    | OpAs a => Ok {| tname := tname t; tschema := tschema t; talias := Some a; tfor := tfor t; tportion := tportion t; tqcls := tqcls t |}
     | OpFor x => if is_some (tfor t) || is_some (tportion t) then Err "AttributeError"
-                 else Ok {| tname := tname t; tschema := tschema t; talias := talias t; tfor := Some x; tportion := None |}
+                 else Ok {| tname := tname t; tschema := tschema t; talias := talias t; tfor := Some x; tportion := None; tqcls := tqcls t |}
     | OpPortion x => if is_some (tfor t) || is_some (tportion t) then Err "AttributeError"
-                 else Ok {| tname := tname t; tschema := tschema t; talias := talias t; tfor := None; tportion := Some x |}
+                 else Ok {| tname := tname t; tschema := tschema t; talias := talias t; tfor := None; tportion := Some x; tqcls := tqcls t |}
     end
   end.
 
-Record tprog := { p_name : string; p_route : sroute; p_alias : option string; p_ops : list top }.
+Record tprog := { p_name : string; p_route : sroute; p_alias : option string; p_qcls : string; p_ops : list top }.
 
 Definition ev_tprog (p : tprog) : res table :=
   match ev_route (p_route p) with
   | Err e => Err e
   | Ok s => fold_left apply_op (p_ops p)
-              (Ok {| tname := p_name p; tschema := s; talias := p_alias p; tfor := None; tportion := None |})
+              (Ok {| tname := p_name p; tschema := s; talias := p_alias p; tfor := None; tportion := None; tqcls := p_qcls p |})
   end.
 
 Inductive iprog := ProgT (p : tprog) | ProgS (p : sprog) | ProgA (n : string) (body : option string).
